@@ -1,6 +1,8 @@
 import Driver.Proto
 import PolyVerif.Model.Par
 import PolyVerif.Gen.Partition
+import PolyVerif.Model.ParCanvas
+import Std.Data.HashMap
 
 /-
   C10 driver.  Request lines (see go/harness/c10.go):
@@ -10,6 +12,10 @@ import PolyVerif.Gen.Partition
     c10.prims   TOPO n size k  idx(k ints)        → "i:a,b,c" per delivered (index, primitive corner ids)              | panic
     c10.modify  NAME n size d  v(n*d hex)         → output array (n*d hex) of  f(i, v) = 2*v + i                        | panic
     c10.holds.visits_exact n k i1..ik             → the observed index multiset is exactly {0..n-1}, each once
+    c10.accumulate VARIANT ncalls {loX hiX loY hiY loZ hiZ ns {x y z hex}*ns}*ncalls
+                                                  → the canvas after the history of AddField* calls in the job model of
+                                                    Model/ParCanvas.lean (jobs of the regenerated expressions, each event
+                                                    `cell += sample` as a read-modify-write): "cx,cy,cz:index:hex" per non-zero cell
     c10.holds.same_tri_multiset WHAT na nb a.. b..  → the two triangle lists are equal as multisets
     c10.holds.same_output  k a1..ak b1..bk        → the two token lists are identical
 -/
@@ -48,6 +54,44 @@ def chunk (d : Nat) (xs : Array String) (k : Int) : Option String :=
   if k < 0 then none else
   let k := k.toNat
   if (k + 1) * d ≤ xs.size then some (",".intercalate ((xs.extract (k * d) ((k + 1) * d)).toList)) else none
+
+def fnsOf : String → Option FieldFns
+  | "AddField" => some addFieldFns
+  | "AddFieldParallel" => some addFieldParallelFns
+  | "AddFieldParallel2" => some addFieldParallel2Fns
+  | _ => none
+
+/-- parse one call: domain, then `ns` samples; returns the rest of the tokens -/
+def parseCall (ts : List String) : Option (Dom × Std.HashMap (Int × Int × Int) Float × List String) := do
+  match ts with
+  | a :: b :: c :: d :: e :: f :: ns :: rest =>
+    let dom : Dom := ⟨← int? a, ← int? b, ← int? c, ← int? d, ← int? e, ← int? f⟩
+    let ns ← nat? ns
+    let rec go (k : Nat) (ts : List String) (tbl : Std.HashMap (Int × Int × Int) Float) :
+        Option (Std.HashMap (Int × Int × Int) Float × List String) :=
+      match k, ts with
+      | 0, ts => some (tbl, ts)
+      | k + 1, x :: y :: z :: v :: ts => do
+          let key := (← int? x, ← int? y, ← int? z)
+          if tbl.contains key then none else   -- a position sampled twice: not the job model
+          go k ts (tbl.insert key (← hexF? v))
+      | _, _ => none
+    let (tbl, rest) ← go ns rest {}
+    pure (dom, tbl, rest)
+  | _ => none
+
+/-- replay a history of calls in the job model: every job of every call, block after block, each event a read-modify-write -/
+def accumulate (F : FieldFns) : Nat → List String → (Cell → Float) → List Cell → Option ((Cell → Float) × List Cell)
+  | 0, [], m, keys => some (m, keys)
+  | 0, _ :: _, _, _ => none
+  | k + 1, ts, m, keys => do
+      let (dom, tbl, rest) ← parseCall ts
+      let cells := (F.blocks dom).flatMap (F.jobCells dom)
+      if cells.length ≠ tbl.size then none else     -- the model's jobs take exactly the samples the implementation took
+      let log ← cells.mapM (fun e => do
+        let v ← tbl[e.2]?
+        pure (e.1, fun (a : Float) => a + v))
+      accumulate F k rest (runUpd m log) (cells.map (·.1) ++ keys)
 
 def handle (op : String) (args : List String) : Option String := do
   match op, args with
@@ -97,6 +141,14 @@ def handle (op : String) (args : List String) : Option String := do
   | "c10.holds.visits_exact", n :: _k :: is => do
       let n ← nat? n; let l ← is.mapM int?
       pure (boolStr (isRangePerm n l))
+  | "c10.accumulate", variant :: ncalls :: rest => do
+      let F ← fnsOf variant; let n ← nat? ncalls
+      let (m, keys) ← accumulate F n rest (fun _ => 0.0) []
+      let distinct := (keys.foldl (fun (acc : Std.HashMap Cell Unit) k => acc.insert k ()) {}).toList.map (·.1)
+      let toks := distinct.filterMap (fun k =>
+        let v := m k
+        if v == 0.0 then none else some s!"{k.1.1},{k.1.2.1},{k.1.2.2}:{k.2}:{fHex v}")
+      pure (joinOr "none" (toks.mergeSort (fun x y => decide (x ≤ y))))
   | "c10.holds.same_tri_multiset", _what :: na :: nb :: rest => do
       let na ← nat? na; let nb ← nat? nb
       if rest.length ≠ na + nb then pure "false" else
